@@ -368,20 +368,33 @@ theorem save_crash_atomic_old_or_new (C : Codec σ) (hdec : ∀ s, C.dec (C.enc 
 
 /-- the same for the quantising format's save (one write of the whole blob, then rename):
     the path holds the old entry or exactly the blob -/
-theorem saveq_crash_atomic (tmp path : π) (hne : tmp ≠ path) (fs0 : FS π) (blob : Bytes) :
-    ∀ st ∈ crashStates fs0 (saveOpsQ tmp path blob),
-      st path = fs0 path ∨ st path = some ⟨[], blob⟩ := by
+theorem saveq_crash_atomic (tmp path : π) (hne : tmp ≠ path) (fs0 : FS π) (blob : Bytes) (fsyncFirst : Bool) :
+    ∀ st ∈ crashStates fs0 (saveOpsQ tmp path blob fsyncFirst),
+      st path = fs0 path ∨ st path = some (if fsyncFirst then ⟨blob, []⟩ else ⟨[], blob⟩) := by
   have hpt : path ≠ tmp := fun e => hne e.symm
   intro st hst
   have hc : applyOp fs0 (.create tmp) tmp = some ⟨[], []⟩ := by simp [applyOp]
   have hw1 := applyOp_write_same _ tmp blob _ hc
-  simp only [saveOpsQ, crashStates, partials, List.mem_append,
-    List.mem_cons, List.mem_map, List.mem_range, List.not_mem_nil, or_false] at hst
-  rcases hst with rfl | ⟨k, _, rfl⟩ | rfl | rfl
-  · exact .inl rfl
-  · exact .inl (by rw [applyOp_write_ne _ _ _ _ hpt, applyOp_create_ne _ _ _ hpt])
-  · exact .inl (by rw [applyOp_write_ne _ _ _ _ hpt, applyOp_create_ne _ _ _ hpt])
-  · right; rw [applyOp_rename_dst _ tmp path _ hne hw1]; simp
+  cases fsyncFirst with
+  | false =>
+    simp only [saveOpsQ, List.cons_append, List.nil_append, crashStates, partials, List.mem_append,
+      List.mem_cons, List.mem_map, List.mem_range, List.not_mem_nil, or_false, Bool.false_eq_true,
+      if_false] at hst
+    rcases hst with rfl | ⟨k, _, rfl⟩ | rfl | rfl
+    · exact .inl rfl
+    · exact .inl (by rw [applyOp_write_ne _ _ _ _ hpt, applyOp_create_ne _ _ _ hpt])
+    · exact .inl (by rw [applyOp_write_ne _ _ _ _ hpt, applyOp_create_ne _ _ _ hpt])
+    · right; rw [applyOp_rename_dst _ tmp path _ hne hw1]; simp
+  | true =>
+    have hf := applyOp_fsync_same _ tmp _ hw1
+    simp only [saveOpsQ, List.cons_append, List.nil_append, crashStates, partials, List.mem_append,
+      List.mem_cons, List.mem_map, List.mem_range, List.not_mem_nil, or_false, if_true] at hst
+    rcases hst with rfl | ⟨k, _, rfl⟩ | rfl | rfl | rfl
+    · exact .inl rfl
+    · exact .inl (by rw [applyOp_write_ne _ _ _ _ hpt, applyOp_create_ne _ _ _ hpt])
+    · exact .inl (by rw [applyOp_write_ne _ _ _ _ hpt, applyOp_create_ne _ _ _ hpt])
+    · exact .inl (by rw [applyOp_fsync_ne _ _ _ hpt, applyOp_write_ne _ _ _ _ hpt, applyOp_create_ne _ _ _ hpt])
+    · right; rw [applyOp_rename_dst _ tmp path _ hne hf]; simp
 
 end atomic
 
@@ -589,6 +602,44 @@ theorem short_vector_witness :
   refine ⟨by decide, fun h => ?_⟩
   have := h (fun _ => true) id [0x350637bd, 0, 0, 0x3f800000] (by decide)
   revert this
+  decide
+
+/-! ## after the proposed fixes (statements that become provable in full) -/
+
+/-- with `CompressedScalar::Bytes` every scalar survives the quantising format -/
+theorem compressed_scalar_exact_fixed (s : Scalar) : decompressScalarF (compressScalarF s) = s := by
+  cases s <;> rfl
+
+/-- with the lossless sparse form every vector below the TT threshold is bit-identical:
+    no condition on its entries (tiny values, -0.0, NaN payloads included) -/
+theorem short_vector_bit_identical_fixed (ttOk : List Nat → Bool) (ttRecon : List Nat → List Nat) (v : List Nat)
+    (hlen : v.length < TT_MIN_DIMENSION) :
+    toDense ttRecon (fromDenseFixed ttOk v) = v := by
+  unfold fromDenseFixed
+  cases v with
+  | nil => simp [toDense]
+  | cons b bs =>
+    simp only [List.isEmpty_cons, Bool.false_eq_true, if_false]
+    split
+    · have := scatter_sparse_by notPlusZero (b :: bs) [] (droppedAreZero_notPlusZero _)
+        (by unfold TT_MIN_DIMENSION at hlen; unfold U32; simp at hlen ⊢; omega)
+      simpa [toDense] using this
+    · have hd : decide ((b :: bs).length ≥ TT_MIN_DIMENSION) = false := decide_eq_false (by omega)
+      simp only [hd, Bool.false_and, Bool.false_eq_true, if_false]; simp [toDense]
+
+example : toDense id (fromDenseFixed (fun _ => true) [0x350637bd, 0, 0x80000000, 0x7fc00001]) =
+    [0x350637bd, 0, 0x80000000, 0x7fc00001] := by decide
+
+/-- with `.tmp` appended to the whole name the temp path never equals the path -/
+theorem tmpNameFixed_ne (name : List Char) : tmpNameFixed name ≠ name := by
+  intro h
+  have := congrArg List.length h
+  simp [tmpNameFixed] at this
+
+/-- with the round-trip guard, a vector stored through the id-list branch is one whose casts are
+    exact; every other non-TT vector is raw: the `ids`-field witness disappears -/
+theorem compressed_ids_field_fixed :
+    roundValueF id ⟨false, true, true⟩ "user:1".toList "ids".toList (.vector [0x3fc00000]) = .vector [0x3fc00000] := by
   decide
 
 end Neumann.Snap.Props
